@@ -375,6 +375,9 @@ func carrierDiff(raw []byte) string {
 	a, ok1 := dec(in)
 	b, ok2 := dec(out)
 	if ok1 && ok2 && a == b {
+		if len(out) != len(in) {
+			return "same-map-different-entries" // e.g. repeated entry names merged
+		}
 		return "only-empty-list-element-type"
 	}
 	return "content"
@@ -737,6 +740,7 @@ func runC02(env *vk.Env) {
 	}
 	nd := env.Pick(150, 20000)
 	for i := 0; i < nd; i++ {
+		allowDupKeys = i%3 == 0
 		nbtFlush(env, &tr, "B carriers re-emit byte for byte", &part, false)
 		tree := randTree(rng, 1+rng.Intn(4), 0)
 		fmtName := []string{"file", "network"}[rng.Intn(2)]
@@ -744,6 +748,7 @@ func runC02(env *vk.Env) {
 		for _, tg := range []string{"raw", "dynbt"} {
 			tr.Add(nbtDecode(fmtName, doc, tg, "random"))
 		}
+		allowDupKeys = false
 	}
 	nbtFlush(env, &tr, "B carriers re-emit byte for byte", &part, true)
 }
